@@ -305,7 +305,10 @@ class Body:
             out += [f"    if {self.expr(env, 'bool', 1)}:", "        pass"]
         c = self.expr(env, "bool", 1)
         if maybe:
-            c1, c2 = self.expr(env, "bool", 1), self.expr(env, "bool", 1)
+            # conditions that are certainly not constant-folded: comparisons of a variable
+            dc = self.fresh("dc")
+            out.insert(0, f"{dc} = {self.expr(env, 'int', 1)}")
+            c, c1, c2 = f"{dc} < 1", f"{dc} < 2", f"{dc} < 3"
             out += [f"    if {c}:", f"        if {c1}:", f"            {a} = 1", "        break",
                     "    else:", f"        if {c2}:", f"            {a} = 2", "        break",
                     f"    {dead}"]
